@@ -304,3 +304,46 @@ proof! {
         std::mem::forget(ctx);
     }
 }
+
+proof! {
+    //@ props=C03 tier=quick bounds=K2:optional-field-added-in-a-later-chunk-read-from-older-data:declared-default-or-error;older-data-of-a-later-made-optional-field-in-a-present-chunk:wrapped cap=900
+    fn c03_k2_optional_field_missing_chunk() unwind(6) {
+        // reader history: [Initial{a}, FieldAdded(f1), FieldMadeOptional(f1)]; data: stored version 1
+        // (chunk 0 = a, chunk 1 = f1 as a plain u8) and stored version 0 (no f1 at all)
+        let meta = AdtMetadata::new(vec![
+            Evolution::InitialVersion,
+            Evolution::FieldAdded { name: "f1".to_string() },
+            Evolution::FieldMadeOptional { name: "f1".to_string() },
+        ]);
+        let data: [u8; 2] = sym::bytes();
+        {
+            let mut ctx = DeserializationContext::new(&data);
+            let mut d = AdtDeserializer::verif_from_parts(&meta, &mut ctx, 1, &[(0, 1), (1, 1)], &[], &[]);
+            assert!(matches!(d.read_field::<u8>("a", None), Ok(x) if x == data[0]));
+            // stored version 1 < step 2 that made f1 optional: the plain value is wrapped
+            assert!(matches!(d.read_optional_field::<u8>("f1", Some(Some(9))), Ok(Some(x)) if x == data[1]), "older data of a field made optional later must be wrapped in Some");
+            std::mem::forget(d);
+            std::mem::forget(ctx);
+        }
+        {
+            let mut ctx = DeserializationContext::new(&data);
+            let mut d = AdtDeserializer::verif_from_parts(&meta, &mut ctx, 0, &[], &[], &[]);
+            assert!(matches!(d.read_field::<u8>("a", None), Ok(x) if x == data[0]));
+            // stored version 0 < chunk 1: the field was not serialized at all -> declared default
+            assert!(matches!(d.read_optional_field::<u8>("f1", Some(Some(9))), Ok(Some(9))), "an optional field missing from old data takes its declared default");
+            match d.read_optional_field::<u8>("f1", None) {
+                Ok(v) => { let _ = v; assert!(false, "a missing optional field without default must be an error"); }
+                Err(e) => std::mem::forget(e),
+            }
+            cover!(true);
+            std::mem::forget(d);
+            std::mem::forget(ctx);
+        }
+        std::mem::forget(meta);
+    }
+}
+
+//@ props=C03,C07,C06 tier=thorough bounds=K1:header[chunk0,chunk2];reader-version-1(first-chunk-empty) cap=2400
+header!(c03_k1_first_chunk_empty, 1, [Step::Chunk(0), Step::Chunk(2)]);
+//@ props=C03,C07,C06 tier=thorough bounds=K1:header[chunk2,made-optional(pos-0),made-optional(pos-1)];reader-version-0 cap=2400
+header!(c03_k1_two_made_optional, 0, [Step::Chunk(2), Step::MadeOptional(0x00), Step::MadeOptional(0xff)]);
